@@ -106,6 +106,28 @@ func c03Setup() error {
 		c03Streams = append(c03Streams, cf.Data)
 		c03Names = append(c03Names, cf.Name)
 	}
+	// every box of every corpus file, at any depth, as a box-level input (at most 6 distinct instances per type, <= 8 KiB)
+	perType := map[string]int{}
+	seen := map[string]bool{}
+	c, _ := work.LoadCorpus()
+	for _, cf := range c {
+		top, err := ref.Walk(cf.Data, 0, int64(len(cf.Data)), true)
+		if err != nil {
+			continue
+		}
+		for _, b := range ref.Flatten(top) {
+			if b.Size > 8192 || b.Size < 8 || perType[b.Type] >= 6 {
+				continue
+			}
+			raw := cf.Data[b.Start:b.End()]
+			if seen[string(raw)] {
+				continue
+			}
+			seen[string(raw)] = true
+			perType[b.Type]++
+			c03RealBoxes = append(c03RealBoxes, raw)
+		}
+	}
 	rd, sr, _ := mp4.VsimDecoderKeys()
 	if fmt.Sprint(rd) != fmt.Sprint(sr) {
 		// reported by every run (cheap) so that it has a replay file
@@ -115,6 +137,9 @@ func c03Setup() error {
 }
 
 var c03KeyMismatch string
+
+// c03RealBoxes: boxes cut out of the corpus files at any depth (box-level decoder inputs).
+var c03RealBoxes [][]byte
 
 func diffKeys(a, b []string) []string {
 	m := map[string]bool{}
@@ -570,12 +595,92 @@ func typedPayload(typ string, t *sim.Tape, rnd *sim.Rand) []byte {
 		vf(0, 0)
 		sz := uint32(t.Draw(2)) * val()
 		u32(sz)
-		u32(uint32(cnt))
-		if sz == 0 {
+		if sz != 0 {
+			u32(val()) // uniform size: no table follows, so any sample count is "consistent" with the box size
+		} else {
+			u32(uint32(cnt))
 			for i := 0; i < cnt; i++ {
 				u32(val())
 			}
 		}
+	case "avcC":
+		u8(1)
+		u8([]int{66, 77, 88, 100, 110, 122, 244, 44}[t.Draw(8)])
+		u8(t.Draw(256))
+		u8(31)
+		u8(0xfc | 3)
+		ns := t.Draw(3)
+		u8(0xe0 | ns)
+		for i := 0; i < ns; i++ {
+			l := t.Draw(6)
+			u16(l)
+			for j := 0; j < l; j++ {
+				u8(t.Draw(256))
+			}
+		}
+		np := t.Draw(3)
+		u8(np)
+		for i := 0; i < np; i++ {
+			l := t.Draw(6)
+			u16(l)
+			for j := 0; j < l; j++ {
+				u8(t.Draw(256))
+			}
+		}
+		if t.Bool() {
+			u8(0xfc | t.Draw(4))
+			u8(0xf8 | t.Draw(8))
+			u8(0xf8 | t.Draw(8))
+			u8(0)
+		}
+	case "pssh":
+		ver := t.Draw(2)
+		vf(ver, 0)
+		for i := 0; i < 16; i++ {
+			u8(t.Draw(256))
+		}
+		if ver == 1 {
+			k := t.Draw(3)
+			u32(uint32(k))
+			for i := 0; i < 16*k; i++ {
+				u8(t.Draw(256))
+			}
+		}
+		n := t.Draw(12)
+		u32(uint32(n))
+		for i := 0; i < n; i++ {
+			u8(t.Draw(256))
+		}
+	case "esds":
+		vf(0, 0)
+		// ES_Descriptor(3){ES_ID, flags, DecoderConfig(4){objType, streamType, bufferSize(3), maxBr, avgBr, DecSpecificInfo(5)}, SLConfig(6)}
+		dsi := t.Draw(8)
+		size := func(n int) {
+			for k := t.Draw(3); k > 0; k-- { // seeded number of 0x80 continuation bytes
+				u8(0x80)
+			}
+			u8(n)
+		}
+		u8(3)
+		size(3 + 2 + 13 + 2 + dsi + 3)
+		u16(t.Draw(4))
+		u8(0)
+		u8(4)
+		size(13 + 2 + dsi)
+		u8(0x40)
+		u8(0x15)
+		u8(0)
+		u16(t.Draw(65536))
+		u32(val())
+		u32(val())
+		u8(5)
+		u8(dsi)
+		for i := 0; i < dsi; i++ {
+			u8(t.Draw(256))
+		}
+		u8(6)
+		u8(1)
+		u8(2)
 	case "elst":
 		ver := t.Draw(2)
 		vf(ver, 0)
@@ -706,6 +811,9 @@ func typedPayload(typ string, t *sim.Tape, rnd *sim.Rand) []byte {
 	default:
 		return nil
 	}
+	if len(p) > 0 && t.Chance(80) {
+		p = p[:t.Draw(len(p))] // the box ends early, at an arbitrary byte, with consistent size fields around it
+	}
 	return p
 }
 
@@ -716,6 +824,12 @@ func c03LeafBox(r *sim.Run) {
 	t := r.T
 	rnd := t.Sub()
 	raw := synthBox(t, rnd)
+	if len(c03RealBoxes) > 0 && t.Chance(350) {
+		// a real box (leaf or container) cut out of a corpus file: box-level decoding of containers goes through the
+		// reader-path decoders of their children, which file-level decoding never does below moov/moof
+		raw = c03RealBoxes[t.Draw(len(c03RealBoxes))]
+		r.Probe("leaf-real-box")
+	}
 	typ := string(raw[4:8])
 	r.Event("leaf", int(sim.HashString(typ)&0xffff), len(raw))
 	decSR := func(x []byte) (b mp4.Box, err error) {
